@@ -70,7 +70,9 @@ func QuickRuns(id string) (int, int) {
 		return 400, 120
 	case "C08":
 		return 400, 120
-	case "C05", "C12", "C11":
+	case "C05":
+		return 300, 120
+	case "C12", "C11":
 		return 800, 120
 	case "C06":
 		return 1500, 120
